@@ -186,6 +186,12 @@ Proof. fmono_fix. Qed.
 Lemma fm_is_child : forall f f', (f <= f')%nat -> forall w c, fle (is_child f w c) (is_child f' w c).
 Proof. fmono_def. Qed.
 #[export] Hint Resolve fm_is_child : fm.
+Lemma fm_sib_walk : forall f f', (f <= f')%nat -> forall k a, fle (sib_walk f k a) (sib_walk f' k a).
+Proof. fmono_fix. Qed.
+#[export] Hint Resolve fm_sib_walk : fm.
+Lemma fm_scroll_up : forall f f', (f <= f')%nat -> forall a, fle (scroll_up f a) (scroll_up f' a).
+Proof. fmono_fix. Qed.
+#[export] Hint Resolve fm_scroll_up : fm.
 Lemma fm_count_up : forall f f', (f <= f')%nat -> forall w, fle (count_up f w) (count_up f' w).
 Proof. fmono_fix. Qed.
 #[export] Hint Resolve fm_count_up : fm.
